@@ -305,10 +305,11 @@ pub fn run(tier: Tier, seed: u64) -> i32 {
             "state merging is sound if equal keys imply equal futures (DESIGN section 5.1); the thorough tier re-explores a slice without merging and requires its key pairs to be a subset".into(),
             "mismatches on programs whose loop/repeat bound is read from the device are attributed to C01 when the subject is equally wrong on the program with the literal bound".into(),
         ],
-        required_witnesses: vec!["read_output_not_supplied_constructor_fails", "read_of_Z_or_X_is_an_error_item", "c_expansion", "loop_bound_computed", "while_ran_2plus", "shadow", "row_with_an_answer_of_the_wrong_length", "one_loaded_test_used_twice_with_different_drivers"],
+        required_witnesses: vec!["read_output_not_supplied_constructor_fails", "read_of_Z_or_X_is_an_error_item", "c_expansion", "loop_bound_computed", "while_ran_2plus", "shadow", "row_with_an_answer_of_the_wrong_length", "one_loaded_test_used_twice_with_different_drivers", "iterator_advanced_with_nth"],
         exhaustive_note: "every reachable state up to the depth bound for every case".into(),
         e1: true,
     };
     st.merge(crate::props::c13::reuse_part(&deadline));
+    st.merge(crate::props::c13::api_use_part(&deadline));
     finish(meta, st, started)
 }
